@@ -25,7 +25,7 @@ theorem gen_no_extraction_failure : Dtn7.Gen.C13.extractionFailures = [] := by d
 
 /-- The code variant (see `Dtn7.Props.C05.gen_variant`). -/
 theorem gen_variant :
-    Dtn7.Gen.C13.seqAssignedFirst = false ∧ Dtn7.Gen.C13.expiryCountsFromNow = true ∧
+    Dtn7.Gen.C13.seqAssignedFirst = true ∧ Dtn7.Gen.C13.expiryCountsFromNow = true ∧
     Dtn7.Gen.C13.dtlsrReportsFailure = true ∧ Dtn7.Gen.C13.dispatchingHoldsRefused = true := by decide
 
 set_option maxRecDepth 16384 in
@@ -79,7 +79,8 @@ theorem gen_epidemic_failure :
 
 set_option maxRecDepth 16384 in
 /-- Spray-and-wait: the originator gets `Multiplicity` copies and an empty sent list, a relayed bundle one
-copy and its previous node; a failure gives a copy back and removes the peer. Binary spray: a bundle
+copy and its previous node; a failure removes the first occurrence of the peer from the sent list and, only
+then, gives a copy back (under one lock). Binary spray: a bundle
 WITHOUT a BinarySprayBlock is treated as originated here — previous node not recorded (known finding). -/
 theorem gen_spray :
     Dtn7.Gen.C13.sprayNotifySkeleton =
@@ -101,10 +102,14 @@ theorem gen_spray :
        "else",
        "  metadata := sprayMetaData{ sent: make([]bpv7.EndpointID, 0), remainingCopies: bs.l, }",
        "  bs.dataMutex.Lock()", "  bs.bundleData[bp.Id] = metadata", "  bs.dataMutex.Unlock()"] ∧
-    isSubseq ["metadata.remainingCopies = metadata.remainingCopies + 1",
-        "  if metadata.sent[i] == sender.GetPeerEndpointID()",
-        "    metadata.sent = append(metadata.sent[:i], metadata.sent[i+1:]...)", "sw.bundleData[bp.Id] = metadata"]
-      Dtn7.Gen.C13.sprayFailureSkeleton = true := by decide
+    Dtn7.Gen.C13.sprayFailureSkeleton =
+      ["sw.dataMutex.Lock()", "defer sw.dataMutex.Unlock()", "metadata, ok := sw.bundleData[bp.Id]",
+       "if !ok", "  return", "verifPoint(\"SprayAndWait.ReportFailure:read\")",
+       "for i := 0; i < len(metadata.sent); i++",
+       "  if metadata.sent[i] == sender.GetPeerEndpointID()",
+       "    metadata.sent = append(metadata.sent[:i], metadata.sent[i+1:]...)",
+       "    metadata.remainingCopies = metadata.remainingCopies + 1", "    break",
+       "sw.bundleData[bp.Id] = metadata", "verifPoint(\"SprayAndWait.ReportFailure:written\")"] := by decide
 
 set_option maxRecDepth 16384 in
 /-- The sensor-mule wrapper (`Dtn7.Node.muleFilter`, `muleDrops`). -/
@@ -216,7 +221,7 @@ theorem spray_budget (m : SprayMeta) (ps : List Peer) :
 /-- The original `DTLSR.ReportFailure` (`dtlsrFail = false`) was empty: the failed peer stays listed. -/
 theorem dtlsr_failure_witness :
     let c : Cfg := { self := 1, algo := .dtlsr, mule := false, sensorNodes := [], sprayL := 3, bcast := ⟨999, 0⟩,
-                     seqFirst := false, expiryNow := true, dtlsrFail := false, holdFix := true }
+                     seqFirst := false, skipStored := false, expiryNow := true, dtlsrFail := false, holdFix := true }
     let env : Env := { sendOk := fun _ _ _ => false, prefer := fun _ _ => [], cand := fun _ _ => false }
     let b : Bundle := { tag := 1, src := ⟨7, 0⟩, ts := 900, seq := 0, dst := ⟨999, 0⟩, prev := none, lifetime := 3600,
                         hop := none, age := none, delBlock := false, bsCopies := none }
@@ -228,7 +233,7 @@ theorem dtlsr_failure_witness :
 /-- Binary spray, relayed bundle without a BinarySprayBlock (known finding): sent straight back. -/
 theorem binary_no_block_witness :
     let c : Cfg := { self := 1, algo := .binarySpray, mule := false, sensorNodes := [], sprayL := 4, bcast := ⟨999, 0⟩,
-                     seqFirst := false, expiryNow := true, dtlsrFail := true, holdFix := true }
+                     seqFirst := false, skipStored := false, expiryNow := true, dtlsrFail := true, holdFix := true }
     let env : Env := { sendOk := fun _ _ _ => true, prefer := fun _ _ => [], cand := fun _ _ => false }
     let b : Bundle := { tag := 1, src := ⟨7, 0⟩, ts := 900, seq := 0, dst := ⟨9, 0⟩, prev := some ⟨2, 0⟩, lifetime := 3600,
                         hop := none, age := none, delBlock := false, bsCopies := none }
@@ -241,7 +246,7 @@ theorem binary_no_block_witness :
 
 example : Domain13
     { self := 1, algo := .spray, mule := true, sensorNodes := [2], sprayL := 3, bcast := ⟨999, 0⟩,
-      seqFirst := false, expiryNow := true, dtlsrFail := true, holdFix := true }
+      seqFirst := false, skipStored := false, expiryNow := true, dtlsrFail := true, holdFix := true }
     [.peerUp ⟨1, ⟨2, 0⟩⟩,
      .receive { tag := 1, src := ⟨7, 0⟩, ts := 900, seq := 0, dst := ⟨9, 0⟩, prev := some ⟨2, 0⟩, lifetime := 3600,
                 hop := none, age := none, delBlock := false, bsCopies := none } none,
@@ -267,7 +272,7 @@ example : ∀ a ∈ [ex_r, ex_s], ∀ b ∈ [ex_r, ex_s], a.tag = b.tag → a = 
 
 example :
     let c : Cfg := { self := 1, algo := .epidemic, mule := false, sensorNodes := [], sprayL := 3, bcast := ⟨999, 0⟩,
-                     seqFirst := false, expiryNow := true, dtlsrFail := true, holdFix := true }
+                     seqFirst := false, skipStored := false, expiryNow := true, dtlsrFail := true, holdFix := true }
     let env : Env := { sendOk := fun a _ _ => a == 2, prefer := fun _ _ => [], cand := fun _ _ => false }
     let b : Bundle := { tag := 1, src := ⟨7, 0⟩, ts := 900, seq := 0, dst := ⟨9, 0⟩, prev := some ⟨2, 0⟩, lifetime := 3600,
                         hop := none, age := none, delBlock := false, bsCopies := none }
